@@ -664,15 +664,22 @@ Proof.
   unfold letter_eqb in E. destruct (letter_eq_dec l x); [subst; exact Hin | discriminate].
 Qed.
 
-Definition queue_full_check (cap : nat) : bool * bool * bool * nat * nat * list (lclass * letter) :=
-  let ops := flush_ops cap (wit_queue cap) in
-  let s := run cap ops init in
-  (quiescentb s, inb (S cap, 5, 9) (spec_drops ops), inb (S cap, 5, 9) (published s),
-   length (published s), length (spec_drops ops), lost s).
+Definition wq256 : list op := flush_ops 256 (wit_queue 256).
+
+Lemma refuted_queue_full_256_b :
+  quiescentb (run 256 wq256 init) = true /\ inb (257, 5, 9) (spec_drops wq256) = true
+  /\ inb (257, 5, 9) (published (run 256 wq256 init)) = false
+  /\ lost (run 256 wq256 init) = [(CQueueFull, (257, 5, 9))].
+Proof. vm_compute. repeat split; reflexivity. Qed.
 
 Lemma refuted_queue_full_256 :
-  queue_full_check 256 = (true, true, false, 256, 257, [(CQueueFull, (257, 5, 9))]).
-Proof. vm_compute. reflexivity. Qed.
+  exists ops, let s := run 256 ops init in
+    quiescent s /\ In (257, 5, 9) (spec_drops ops) /\ inb (257, 5, 9) (published s) = false
+    /\ lost s = [(CQueueFull, (257, 5, 9))].
+Proof.
+  exists wq256. destruct refuted_queue_full_256_b as (H1 & H2 & H3 & H4).
+  split; [apply quiescentb_ok; exact H1|]. split; [apply inb_ok; exact H2|]. split; assumption.
+Qed.
 
 (** (2) a receiver whose canonical string address.Parse rejects (raw IPv6 host): no dead letter *)
 Definition wit_v6_receiver : list op :=
